@@ -50,6 +50,29 @@ def handleEq (args : List Json) : Json :=
     | _, _ => jerr "bad-case"
   | _ => jerr "bad-args"
 
-def commands : List (String × (List Lean.Json → Lean.Json)) := [("c17memo", handleMemo), ("c17eq", handleEq)]
+def lreqOf (j : Json) : Option LReq :=
+  match asArr? j with
+  | some [.null, .str name] => some ⟨.absent, name⟩
+  | some [.str ns, .str name] => some ⟨.val ns, name⟩
+  | _ => none
+
+def simulateL (cap : Nat) (nsKeySet : Bool) : List (LReq × Nat) → Nat → List LReq → List Nat
+  | _, _, [] => []
+  | m, i, r :: rs =>
+    let res := call (fun a b => cacheKey nsKeySet a == cacheKey nsKeySet b) (fun _ => i) cap m r
+    res.1 :: simulateL cap nsKeySet res.2 (i + 1) rs
+
+/-- `["c17loader", capacity, namespace_key set?, [[ns text | null, name]…]]` → for each request the index of the
+    request whose loaded template it is served -/
+def handleLoader (args : List Json) : Json :=
+  match args with
+  | [cap, .bool nk, hist] =>
+    match asNat? cap, (asArr? hist).bind (mapM? lreqOf) with
+    | some c, some h => jarr ((simulateL c nk [] 0 h).map jnat)
+    | _, _ => jerr "bad-case"
+  | _ => jerr "bad-args"
+
+def commands : List (String × (List Lean.Json → Lean.Json)) :=
+  [("c17memo", handleMemo), ("c17eq", handleEq), ("c17loader", handleLoader)]
 
 end Driver.C17
